@@ -111,6 +111,10 @@ func c02RowSet(c *Check, vs []*verifier, ndV, rndV *verifier) {
 		if !sl.Vals[derive] || !sl.Vals[fn.Params[0]] {
 			return false
 		}
+		// an equality: a response with fewer rows than derived (a prefix cut at a message boundary) is as wrong as one with more
+		if !isEqualityTest(cond) {
+			return false
+		}
 		// both sides are lengths
 		nlen := 0
 		for v := range sl.Vals {
@@ -122,7 +126,7 @@ func c02RowSet(c *Check, vs []*verifier, ndV, rndV *verifier) {
 	})
 	res := gateWalk(p, fn, succ, cut, nil)
 	c.Ob("R2.1", "row count gate", !res.Reached, p.Pos(fn.Pos()),
-		fmt.Sprintf("success only across a rejecting comparison len(response) vs len(RowsWithNamespace(...)) (%d such checks)", len(desc)), res.Witness...)
+		fmt.Sprintf("success only across a rejecting (in)equality test len(response) != len(RowsWithNamespace(...)) (%d such checks); a one-sided comparison lets a truncated response pass", len(desc)), res.Witness...)
 	// (b) every row verified in a fully gated loop, with the index from the derived list
 	var elemCalls []*ssa.Call
 	for _, b := range fn.Blocks {
